@@ -356,12 +356,28 @@ def fidelity_nondestructive(kwargs, w):
     return close(got, want, 1e-6), {"concrete": got, "symbolic": want}
 
 
-def dark_current_replay(tier, seed, n):
-    """Noise-free dark current (astropy Quantity inside): concrete comparison of two schedules of one interval."""
+def _dark_current_case(start, times):
+    """Noise-free dark current (astropy Quantity inside): final pixel frame of one readout at times[-1] vs the split schedule."""
     import pyxel
     from pyxel.exposure import Exposure, Readout
     from pyxel.pipelines import DetectionPipeline, ModelFunction
 
+    def run(ts):
+        pipe = DetectionPipeline(scene_generation=[ModelFunction(func="vxprobes.init_buckets", name="init")],
+                                 charge_generation=[ModelFunction(func="pyxel.models.charge_generation.dark_current", name="dc",
+                                                                  arguments={"figure_of_merit": 1.0, "temporal_noise": False})],
+                                 charge_collection=[ModelFunction(func="pyxel.models.charge_collection.simple_collection", name="coll")])
+        det = make_ccd(*SHAPE, **CHAR)
+        det.environment._temperature = 250.0
+        dt = pyxel.run_mode(mode=Exposure(readout=Readout(times=ts, start_time=start, non_destructive=True)), detector=det, pipeline=pipe)
+        return np.asarray(dt["pixel"])[-1]
+
+    a, b = run([times[-1]]), run(list(times))
+    return bool(np.allclose(a, b, rtol=1e-9)), a, b
+
+
+def dark_current_replay(tier, seed, n):
+    """Concrete comparison of two schedules of one interval (three random schedules per task)."""
     rng = np.random.RandomState(seed)
     obligations = []
     for trial in range(3):
@@ -370,19 +386,7 @@ def dark_current_replay(tier, seed, n):
         times = (start + np.cumsum(cuts)).tolist()
         if any(abs(t) < 1e-9 for t in times):
             continue
-
-        def run(ts):
-            pipe = DetectionPipeline(scene_generation=[ModelFunction(func="vxprobes.init_buckets", name="init")],
-                                     charge_generation=[ModelFunction(func="pyxel.models.charge_generation.dark_current", name="dc",
-                                                                      arguments={"figure_of_merit": 1.0, "temporal_noise": False})],
-                                     charge_collection=[ModelFunction(func="pyxel.models.charge_collection.simple_collection", name="coll")])
-            det = make_ccd(*SHAPE, **CHAR)
-            det.environment._temperature = 250.0
-            dt = pyxel.run_mode(mode=Exposure(readout=Readout(times=ts, start_time=start, non_destructive=True)), detector=det, pipeline=pipe)
-            return np.asarray(dt["pixel"])[-1]
-
-        a, b = run([times[-1]]), run(times)
-        ok = np.allclose(a, b, rtol=1e-9)
+        ok, a, b = _dark_current_case(start, times)
         obligations.append({"id": f"C17/witness/dark_current/n={n},trial={trial}", "verdict": "unsat" if ok else "sat", "info": {"one_readout": a.ravel().tolist(), "split": b.ravel().tolist()},
                             "model": {"start": start, "times": times}, "observed": {}})
     return {"obligations": obligations, "paths": len(obligations), "reached": {o["id"]: 1 for o in obligations}}
@@ -391,7 +395,8 @@ def dark_current_replay(tier, seed, n):
 def replay(oid, kwargs, model, data):
     fn = data["fn"]
     if fn == "dark_current_replay":
-        return True, data.get("info", {})
+        ok, a, b = _dark_current_case(float(model["start"]), [float(t) for t in model["times"]])
+        return (not ok), {"one_readout": a.ravel().tolist(), "split": b.ravel().tolist()}
     n, models = kwargs["n"], kwargs["models"]
     TIER["v"] = kwargs.get("tier", "quick")
     DETECTOR["kind"] = kwargs.get("detector", "ccd")
